@@ -119,6 +119,14 @@ func init() {
 
 const c19Twin0 = 18 // index of the first twin in c19Sents
 
+// further foreign sentinels used as causes only (not among the standard targets): indices 33, 34
+const c19NStdSents = 33
+
+func init() {
+	// runs after the init above (same file, textual order)
+	c19Sents = append(c19Sents, c19Sent{"(SOther 3)", io.ErrUnexpectedEOF}, c19Sent{"(SOther 4)", io.ErrClosedPipe})
+}
+
 const (
 	c19SEOF      = 12
 	c19SCanceled = 13
@@ -347,9 +355,10 @@ func (cc *c19Conn) onWrite(c *memConn, pkt []byte) error {
 	cc.reqs = append(cc.reqs, p)
 	cc.n++
 	n := cc.n
+	inject := cc.inject
 	cc.mu.Unlock()
-	if cc.inject != nil {
-		if handled, err := cc.inject(cc, n, p); handled {
+	if inject != nil {
+		if handled, err := inject(cc, n, p); handled {
 			return err
 		}
 	}
@@ -386,12 +395,46 @@ func (cc *c19Conn) requests() []c19Pkt {
 	return append([]c19Pkt{}, cc.reqs...)
 }
 
+// A failing Write may report that it accepted some bytes before failing: (n > 0, err). The scenario
+// asks for it by returning a *c19PartialErr from inject; c19Transport turns it into (n, err).
+type c19PartialErr struct {
+	n   int // bytes "accepted"; -1 = all but the last one
+	err error
+}
+
+func (e *c19PartialErr) Error() string { return "c19: partial write marker" }
+
+type c19Transport struct{ cc *c19Conn }
+
+func (t *c19Transport) Read(p []byte) (int, error) { return t.cc.conn.Read(p) }
+func (t *c19Transport) Close() error               { return t.cc.conn.Close() }
+func (t *c19Transport) Write(p []byte) (int, error) {
+	n, err := t.cc.conn.Write(p)
+	if pe, ok := err.(*c19PartialErr); ok {
+		k := pe.n
+		if k < 0 || k >= len(p) {
+			k = len(p) - 1
+		}
+		return k, pe.err
+	}
+	return n, err
+}
+
 // c19NewConn makes an unconnected BaseClient over a fresh memConn.
 func c19NewConn(inject func(cc *c19Conn, n int, p c19Pkt) (bool, error)) *c19Conn {
 	cc := &c19Conn{inject: inject}
 	cc.conn = newMemConn(1, cc.onWrite)
-	cc.cli = &mqtt.BaseClient{Transport: cc.conn}
+	cc.cli = &mqtt.BaseClient{Transport: &c19Transport{cc}}
 	return cc
+}
+
+// setInject installs the script of the next attempt on this (still open) connection; packet
+// numbers start again at 1.
+func (cc *c19Conn) setInject(inject func(cc *c19Conn, n int, p c19Pkt) (bool, error)) {
+	cc.mu.Lock()
+	cc.inject = inject
+	cc.n = 0
+	cc.mu.Unlock()
 }
 
 func (cc *c19Conn) connect() error {
@@ -458,7 +501,10 @@ type c19Call struct {
 	// + retryretx: RetryClient with ResponseTimeout, request K interrupted once by the peer closing
 	// (P2: at the PUBREL of a QoS 2 publish), then N timed-out retransmissions via SetClient+Connect+Retry
 	P2    bool
-	Kind  string // req connectopt retryconnectopt retryping retrytimeout notconnected validate closedclient connrefused subbadack willbadqos serve
+	// req with FWrite*: the failing Transport.Write returns (Partial, cause); -1 = len-1. Not part of
+	// the Coq description: BaseClient.write hands the error on whatever n is
+	Partial int
+	Kind    string // req connectopt retryconnectopt retryping retrytimeout notconnected validate closedclient connrefused subbadack willbadqos serve
 	K     int
 	F     int
 	RT    bool
@@ -570,7 +616,11 @@ func (d *c19Desc) text() string {
 		return "&foreignPtr{Err: " + d.Child.text() + "}"
 	case "call":
 		if d.Call.usesCause() {
-			return "call" + d.Call.coq() + "[cause: " + d.Child.text() + "]"
+			w := ""
+			if d.Call.Partial != 0 {
+				w = fmt.Sprintf(" returned by Write as (n=%d, err)", d.Call.Partial)
+			}
+			return "call" + d.Call.coq() + "[cause: " + d.Child.text() + w + "]"
 		}
 		return "call" + d.Call.coq()
 	}
@@ -730,6 +780,11 @@ func c19Issue(cli mqtt.Client, ctx context.Context, k int) error {
 
 // c19Injector interrupts the packet number target the way step f says.
 func c19Injector(f int, cause error, ctx *c19Ctx) func(cc *c19Conn, n int, p c19Pkt) (bool, error) {
+	return c19InjectorPartial(f, cause, ctx, 0)
+}
+
+// partial: how many bytes the failing Write claims to have accepted (0: none; -1: all but one)
+func c19InjectorPartial(f int, cause error, ctx *c19Ctx, partial int) func(cc *c19Conn, n int, p c19Pkt) (bool, error) {
 	target := 1
 	if f >= c19FWrite2 {
 		target = 2
@@ -740,6 +795,9 @@ func c19Injector(f int, cause error, ctx *c19Ctx) func(cc *c19Conn, n int, p c19
 		}
 		switch f {
 		case c19FWrite1, c19FWrite2:
+			if partial != 0 {
+				return true, &c19PartialErr{n: partial, err: cause}
+			}
 			return true, cause
 		case c19FClosed1, c19FClosed2:
 			cc.conn.Close()
@@ -886,13 +944,13 @@ func c19DoCall(c *c19Call, cause error) (error, bool) {
 	case "req":
 		ctx := newC19Ctx(cause)
 		if c.K == c19KConnect {
-			cc := c19NewConn(c19Injector(c.F, cause, ctx))
+			cc := c19NewConn(c19InjectorPartial(c.F, cause, ctx, c.Partial))
 			cc.connackCode = -1
 			err, ok := c19Guard(func() error { _, err := cc.cli.Connect(ctx, "c19"); return err })
 			cc.cli.Close()
 			return err, ok
 		}
-		cc := c19NewConn(c19Injector(c.F, cause, ctx))
+		cc := c19NewConn(c19InjectorPartial(c.F, cause, ctx, c.Partial))
 		if err := cc.connect(); err != nil {
 			return err, false
 		}
@@ -917,7 +975,7 @@ func c19DoCall(c *c19Call, cause error) (error, bool) {
 		return err, ok
 	case "retryping":
 		ctx := newC19Ctx(cause)
-		cc := c19NewConn(c19Injector(c.F, cause, ctx))
+		cc := c19NewConn(c19InjectorPartial(c.F, cause, ctx, c.Partial))
 		rt := time.Duration(0)
 		if c.RT {
 			rt = time.Hour
@@ -1101,7 +1159,7 @@ func c19Flags(err error) []bool {
 // the standard targets, in the order of CheckC19.std_targets
 func c19StdTargets() []error {
 	var ts []error
-	for _, s := range c19Sents {
+	for _, s := range c19Sents[:c19NStdSents] {
 		ts = append(ts, s.err)
 	}
 	ts = append(ts, nil,
@@ -1325,6 +1383,11 @@ func (g *c19Gen) chain(depth int, hostile bool) *c19Desc {
 		return &c19Desc{Kind: "lib", ID: id, Child: child}
 	}
 	c := g.withCause[g.r.Intn(len(g.withCause))]
+	if (c.Kind == "req" || c.Kind == "retryping") && (c.F == c19FWrite1 || c.F == c19FWrite2) {
+		cp := *c
+		cp.Partial = []int{0, 1, 2, -1}[g.r.Intn(4)]
+		c = &cp
+	}
 	return &c19Desc{Kind: "call", ID: id, Call: c, Child: child}
 }
 
@@ -1358,8 +1421,23 @@ func (r *c19Request) text() string {
 }
 
 type c19Plan struct {
-	F     int // -1: everything is acknowledged
-	Cause *c19Desc
+	F       int // -1: everything is acknowledged
+	Cause   *c19Desc
+	Same    bool // run on the SAME, still connected client as the previous attempt (which was ended by its context or a failed write)
+	Partial int  // FWrite*: the failing Write returns (Partial, cause); -1 = len-1
+}
+
+// client numbers of the attempts of a plan
+func c19Clients(plan []c19Plan) []int {
+	out := make([]int, len(plan))
+	c := 0
+	for i, p := range plan {
+		if i == 0 || !p.Same {
+			c++
+		}
+		out[i] = c
+	}
+	return out
 }
 
 type c19AttObs struct {
@@ -1424,14 +1502,24 @@ func c19RunRetry(req *c19Request, plan []c19Plan) ([]c19AttObs, error) {
 		ctx := newC19Ctx(cause)
 		var inject func(cc *c19Conn, n int, p c19Pkt) (bool, error)
 		if p.F >= 0 {
-			inject = c19Injector(p.F, cause, ctx)
+			inject = c19InjectorPartial(p.F, cause, ctx, p.Partial)
 		}
-		cc := c19NewConn(inject)
-		if err := cc.connect(); err != nil {
-			return nil, fmt.Errorf("connecting client %d: %v", i+1, err)
+		var cc *c19Conn
+		if i > 0 && p.Same {
+			// the previous attempt was ended by its context or a failed write: the connection is
+			// still open, the client still connected; Retry is called on that same client
+			cc = conns[len(conns)-1]
+			cc.setInject(inject)
+		} else {
+			cc = c19NewConn(inject)
+			if err := cc.connect(); err != nil {
+				return nil, fmt.Errorf("connecting client %d: %v", len(conns)+1, err)
+			}
+			conns = append(conns, cc)
 		}
-		conns = append(conns, cc)
-		before := totalWrites(i)
+		own := len(conns) - 1
+		ownBefore := len(cc.requests())
+		before := totalWrites(own)
 		// a watchdog completes the context if the attempt does not come back by itself
 		watchdog := newC19Ctx(errC19Stuck)
 		done := make(chan struct{})
@@ -1463,7 +1551,7 @@ func c19RunRetry(req *c19Request, plan []c19Plan) ([]c19AttObs, error) {
 		}
 		close(done)
 		stuck := !returned || watchdog.Err() != nil
-		o := c19AttObs{client: i + 1, plan: p, pkts: cc.requests(), stray: totalWrites(i) - before, class: c19Class(err, stuck)}
+		o := c19AttObs{client: own + 1, plan: p, pkts: cc.requests()[ownBefore:], stray: totalWrites(own) - before, class: c19Class(err, stuck)}
 		if err != nil {
 			o.errTxt = err.Error()
 		}
@@ -1530,6 +1618,7 @@ type c19RetryCase struct {
 
 func (c *c19RetryCase) coq() string {
 	var ats, obs []string
+	clients := c19Clients(c.plan)
 	for i, p := range c.plan {
 		nid := 1
 		if i < len(c.obs) {
@@ -1542,7 +1631,7 @@ func (c *c19RetryCase) coq() string {
 				cause = p.Cause.coq()
 			}
 		}
-		ats = append(ats, cTuple(cNat(i+1), fmt.Sprint(nid), f, cause))
+		ats = append(ats, cTuple(cNat(clients[i]), fmt.Sprint(nid), f, cause))
 	}
 	for _, o := range c.obs {
 		var ps []string
@@ -1556,6 +1645,7 @@ func (c *c19RetryCase) coq() string {
 
 func (c *c19RetryCase) describe() map[string]interface{} {
 	var plan, obs []string
+	clients := c19Clients(c.plan)
 	for i, p := range c.plan {
 		s := "acknowledged"
 		if p.F >= 0 {
@@ -1563,8 +1653,15 @@ func (c *c19RetryCase) describe() map[string]interface{} {
 			if p.Cause != nil && p.F != c19FClosed1 && p.F != c19FClosed2 {
 				s += " cause=" + p.Cause.text()
 			}
+			if p.Partial != 0 && (p.F == c19FWrite1 || p.F == c19FWrite2) {
+				s += fmt.Sprintf(" (Write returns n=%d with the error)", p.Partial)
+			}
 		}
-		plan = append(plan, fmt.Sprintf("attempt %d on client %d: %s", i+1, i+1, s))
+		where := "a fresh connected client"
+		if i > 0 && p.Same {
+			where = "the SAME still connected client"
+		}
+		plan = append(plan, fmt.Sprintf("attempt %d on client %d (%s): %s", i+1, clients[i], where, s))
 	}
 	classes := []string{"nil", "ErrorWithRetry", "io.EOF", "other error (no handle)", "panic", "did not return"}
 	for _, o := range c.obs {
@@ -1716,8 +1813,23 @@ func runC19(cfg *runCfg) error {
 			descs = append(descs, &c19Desc{Kind: "call", ID: g.id(), Call: c, Child: cause})
 		}
 	}
+	// a failing Transport.Write that reports n > 0 accepted bytes: every request kind x n in {1,2,len-1}
+	// x {io.EOF, io.ErrUnexpectedEOF, io.ErrClosedPipe, a foreign error} (n = 0 is the default above)
+	for _, c := range g.withCause {
+		if (c.Kind != "req" && c.Kind != "retryping") || (c.F != c19FWrite1 && c.F != c19FWrite2) {
+			continue
+		}
+		for _, partial := range []int{1, 2, -1} {
+			for _, sent := range []int{c19SEOF, c19NStdSents, c19NStdSents + 1, c19SOther0} {
+				g.nextID = 0
+				cp := *c
+				cp.Partial = partial
+				descs = append(descs, &c19Desc{Kind: "call", ID: g.id(), Call: &cp, Child: &c19Desc{Kind: "sent", Sent: sent}})
+			}
+		}
+	}
 	// every sentinel bare and under each hand-made wrapper
-	for s := range c19Sents {
+	for s := range c19Sents[:c19NStdSents] {
 		g.nextID = 0
 		leaf := &c19Desc{Kind: "sent", Sent: s}
 		descs = append(descs, leaf,
@@ -1808,6 +1920,29 @@ func runC19(cfg *runCfg) error {
 		// the excluded case: Write fails with io.EOF itself
 		jobs = append(jobs, job{g.request(kind), []c19Plan{{F: c19FWrite1, Cause: &c19Desc{Kind: "sent", Sent: c19SEOF}}, {F: -1}}})
 		jobs = append(jobs, job{g.request(kind), []c19Plan{{F: -1}}})
+		// the interruption leaves the connection open (context done / Write failed): Retry on the SAME,
+		// still connected client - once, and twice in a row
+		for _, f1 := range c19StepsFor(g.request(kind), false) {
+			if f1 == c19FClosed1 || f1 == c19FClosed2 {
+				continue
+			}
+			oth := &c19Desc{Kind: "sent", Sent: c19SOther0}
+			can := &c19Desc{Kind: "sent", Sent: c19SCanceled}
+			jobs = append(jobs, job{g.request(kind), []c19Plan{{F: f1, Cause: oth}, {F: -1, Same: true}}})
+			jobs = append(jobs, job{g.request(kind), []c19Plan{{F: f1, Cause: can}, {F: c19FCtx1, Cause: can, Same: true}, {F: -1, Same: true}}})
+			jobs = append(jobs, job{g.request(kind), []c19Plan{{F: f1, Cause: can}, {F: c19FCtx1, Cause: oth, Same: true}, {F: c19FWrite1, Cause: oth, Same: true}, {F: -1}}})
+		}
+		// a failing Write that reports n > 0 accepted bytes, with io.EOF and other transport errors
+		for _, f1 := range c19StepsFor(g.request(kind), false) {
+			if f1 != c19FWrite1 && f1 != c19FWrite2 {
+				continue
+			}
+			for _, partial := range []int{1, 2, -1} {
+				for _, sent := range []int{c19SEOF, c19NStdSents, c19NStdSents + 1, c19SOther0} {
+					jobs = append(jobs, job{g.request(kind), []c19Plan{{F: f1, Cause: &c19Desc{Kind: "sent", Sent: sent}, Partial: partial}, {F: -1}}})
+				}
+			}
+		}
 	}
 	nRetryEnum := len(jobs)
 	for i := 0; i < nRetryRandom; i++ {
@@ -1819,12 +1954,26 @@ func runC19(cfg *runCfg) error {
 		for j := 0; j < n; j++ {
 			steps := c19StepsFor(req, rel)
 			f := steps[r.Intn(len(steps))]
-			plan = append(plan, c19Plan{F: f, Cause: g.randomCause()})
+			pl := c19Plan{F: f, Cause: g.randomCause()}
+			if f == c19FWrite1 || f == c19FWrite2 {
+				pl.Partial = []int{0, 0, 1, 2, -1}[r.Intn(5)]
+			}
+			if j > 0 {
+				pf := plan[j-1].F
+				if pf != c19FClosed1 && pf != c19FClosed2 && r.Intn(3) == 0 {
+					pl.Same = true
+				}
+			}
+			plan = append(plan, pl)
 			if f >= c19FWrite2 || (rel) {
 				rel = true
 			}
 		}
-		plan = append(plan, c19Plan{F: -1})
+		last := c19Plan{F: -1}
+		if pf := plan[len(plan)-1].F; pf != c19FClosed1 && pf != c19FClosed2 && r.Intn(3) == 0 {
+			last.Same = true
+		}
+		plan = append(plan, last)
 		jobs = append(jobs, job{req, plan})
 	}
 	retry := make([]*c19RetryCase, len(jobs))
